@@ -4,18 +4,19 @@
    Confirms: patch applies to a clean checkout; demo exits non-zero with it and zero without it; the pinned suite's stable tests pass with it."""
 import json, os, shutil, subprocess, sys, xml.etree.ElementTree as ET
 wt, sid = sys.argv[1], sys.argv[2]
+sub = sys.argv[3] if len(sys.argv) > 3 else ""          # optional sub-directory of seeded/ (agents that deliver several changes)
 VERIF = os.path.dirname(os.path.dirname(os.path.abspath(__file__)))
 env = dict(os.environ, PYTHONPATH=wt, PYTHONWARNINGS="ignore")
 def sh(*a, **k): return subprocess.run(a, capture_output=True, text=True, **k)
-patch = os.path.join(wt, "seeded", "patch.diff")
-demo = os.path.join(wt, "seeded", "demo.py")
+patch = os.path.join(wt, "seeded", sub, "patch.diff")
+demo = os.path.join(wt, "seeded", sub, "demo.py")
 # clean tree, then apply the patch file itself (proves the file is what breaks things)
 sh("git", "-C", wt, "checkout", "--", "coba")
 r0 = sh("/venv/bin/python", demo, env=env, timeout=600)
 ap = sh("git", "-C", wt, "apply", patch)
 assert ap.returncode == 0, ap.stderr
 r1 = sh("/venv/bin/python", demo, env=env, timeout=600)
-junit = os.path.join(wt, "seeded", "junit.xml")
+junit = os.path.join(wt, "seeded", sub, "junit.xml")
 t = sh("/venv/bin/python", "-m", "pytest", "-q", "-p", "no:cacheprovider", "--timeout=900", "--continue-on-collection-errors",
        f"--junitxml={junit}", "coba/tests", cwd=wt, env=env, timeout=1500)
 base = json.load(open("/root/.vp/BASELINE.json"))
@@ -32,7 +33,7 @@ if not ok:
 dst = os.path.join(VERIF, "seeded", sid)
 os.makedirs(dst, exist_ok=True)
 shutil.copy(patch, dst); shutil.copy(demo, dst)
-meta = json.load(open(os.path.join(wt, "seeded", "meta.json")))
+meta = json.load(open(os.path.join(wt, "seeded", sub, "meta.json")))
 meta["confirmed_by_me"] = {"demo_without_patch_rc": r0.returncode, "demo_with_patch_rc": r1.returncode,
                            "demo_with_patch_output_tail": (r1.stdout + r1.stderr)[-600:],
                            "pinned_suite_with_patch": f"all {len(base['stable_pass'])} stable tests pass", "worktree": wt,
